@@ -47,7 +47,7 @@ func init() {
 func lookupIntrinsic(ex *Exec, fn *ssa.Function, name string) (intrinsic, bool) {
 	h, ok := lookupIntrinsic2(ex, fn, name)
 	if ok && ex.speculating > 0 && !pureIntrinsics[name] {
-		if fn.Name() == "vTier" || isNoopName(ex, name) {
+		if fn.Name() == "vTier" || fn.Name() == "vUF1" || fn.Name() == "vUF2" || isNoopName(ex, name) {
 			return h, true
 		}
 		panic(specAbort{})
